@@ -361,10 +361,12 @@ fn gen_lit(r: &mut Rng, k: &LK) -> LV {
         LK::Other => match r.below(3) { 0 => LV::Arr(vec![LV::I(1), LV::S("a".into())]), 1 => LV::Arr(vec![]), _ => LV::Arr(vec![LV::Arr(vec![LV::I(1)]), LV::Arr(vec![LV::S("a".into())])]) },
     }
 }
+/// one node in `FAULT_DEN` gets a deliberately ill-typed / undeclared replacement
+static FAULT_DEN: std::sync::atomic::AtomicU64 = std::sync::atomic::AtomicU64::new(14);
 fn gen_le(r: &mut Rng, env: &[(String, LK)], want: &LK, d: u32) -> (LE, LK) {
     let pick_var = |r: &mut Rng, k: &LK| -> Option<String> { let c: Vec<&String> = env.iter().filter(|p| &p.1 == k).map(|p| &p.0).collect(); if c.is_empty() { None } else { Some((*r.pick(&c)).clone()) } };
     // a deliberate type error / unknown name now and then
-    if r.chance(1, 14) {
+    if r.chance(1, FAULT_DEN.load(std::sync::atomic::Ordering::Relaxed) as u32) {
         let wrong = r.pick(&[LK::Num, LK::Bool, LK::Str, LK::ArrNum, LK::Mat, LK::Other]).clone();
         if r.chance(1, 4) { return (LE::Var("nope".into()), LK::Other); }
         let (e, _) = gen_le(r, env, &wrong, 0);
@@ -411,23 +413,246 @@ fn le_features(e: &LE, out: &mut Vec<&'static str>) {
 fn class_of(e: &TransformError) -> String {
     let v = variant(e);
     if numeric_conversion(e) { return "Other".into(); }
-    match v.as_str() { "TooLarge" | "AlreadyDeclaredVariable" | "AlreadyDefined" => "Other".into(), _ => v }
+    match v.as_str() { "TooLarge" | "AlreadyDeclaredVariable" | "AlreadyDefined" | "AlreadyDeclaredDomainVariable" => "Other".into(), _ => v }
+}
+
+/// the class of a STATIC verdict: a `WrongArgument { expected: Integer, got: Number }` of the checker is a kind
+/// rule (IntegerRange bounds), not a numeric conversion
+fn class_of_static(e: &TransformError) -> String {
+    let v = variant(e);
+    match v.as_str() { "TooLarge" | "AlreadyDeclaredVariable" | "AlreadyDefined" | "AlreadyDeclaredDomainVariable" => "Other".into(), _ => v }
 }
 
 /// the `where` section as a program of its own: verdict of the type checker, the static kind it assigns to every
 /// constant (token type map), the outcome of `transform` and the numeric value of every constant
+fn gen_lets(r: &mut Rng, max: usize) -> (Vec<(String, LK)>, Vec<(String, LE)>) {
+    let mut env: Vec<(String, LK)> = if r.chance(1, 4) { vec![("PI".to_string(), LK::Num), ("Infinity".to_string(), LK::Num), ("MinusInfinity".to_string(), LK::Num)] } else { vec![] };
+    let mut lets: Vec<(String, LE)> = vec![];
+    for k in 0..2 + r.below(max) {
+        let want = r.pick(&[LK::Num, LK::Num, LK::Num, LK::Bool, LK::Str, LK::ArrNum, LK::ArrNum, LK::Mat, LK::ArrStr, LK::Other]).clone();
+        let (e, kind) = gen_le(r, &env, &want, 2);
+        let name = if r.chance(1, 20) && !env.is_empty() { env[0].0.clone() } else if r.chance(1, 25) { "_".to_string() } else { format!("q{}", k) };
+        if name != "_" && !env.iter().any(|p| p.0 == name) { env.push((name.clone(), kind)); }
+        lets.push((name, e));
+    }
+    (env, lets)
+}
+
+/// one `vars in iterator`
+struct LIt { vars: Vec<String>, tuple: bool, over: LE }
+struct LFor { its: Vec<LIt>, idx: Vec<LE> }
+
+/// canonical form of one fragment of a compiled constraint name
+fn frag_sx(f: &str) -> String {
+    if let Ok(n) = f.parse::<i64>() { return format!("(i {})", n); }   // "-0" (the float -0.0) is 0
+    if let Ok(n) = f.parse::<u64>() { return format!("(i {})", n); }
+    if let Ok(x) = f.parse::<f64>() { if f.chars().any(|c| c.is_ascii_digit()) || ["inf", "-inf", "NaN"].contains(&f) { return format!("(f {})", pre_reflect::numc(x)); } }
+    format!("(s {})", sx::q(f))
+}
+
+/// iteration scopes at program level: quantified, named constraints over the constants of a `where` section;
+/// the checker's verdict, the outcome of transform and the index values of every generated constraint
+/// (read back from its name) against `Rooc/Pre/Scopes.lean`
+enum LTy { Bool, Real(Option<(LE, LE)>), NNReal(Option<(LE, LE)>), Int(LE, LE) }
+struct LDecl { its: Vec<LIt>, vars: Vec<(String, Option<Vec<LE>>)>, ty: LTy }
+
+/// 0-2 iterations over the constants (and the outer iteration variables); returns the scope they open
+fn gen_its(r: &mut Rng, cenv: &[(String, LK)], low: bool, fresh: &mut usize, min: usize) -> (Vec<LIt>, Vec<(String, LK)>) {
+    let mut env = cenv.to_vec();
+    let mut its = vec![];
+    for _ in 0..min + r.below(3 - min) {
+        let shape = r.below(if low { 8 } else { 10 });
+        let want = match shape { 0..=3 => LK::ArrNum, 4..=6 => LK::Mat, 7 => LK::ArrStr, 8 => LK::Num, _ => LK::Other };
+        let (over, _) = gen_le(r, &env, &want, 1);
+        let tuple = match want { LK::Mat => r.chance(2, 3), LK::ArrNum | LK::ArrStr => !low && r.chance(1, 8), _ => r.chance(1, 3) };
+        let nv = if tuple { 1 + r.below(if low { 2 } else { 3 }) } else { 1 };
+        let mut vars = vec![];
+        for _ in 0..nv {
+            *fresh += 1;
+            let name = if tuple && r.chance(1, 10) { "_".to_string() } else if !low && r.chance(1, 20) && !env.is_empty() { env[r.below(env.len())].0.clone() } else if !low && r.chance(1, 40) { "len".to_string() } else { format!("i{}", fresh) };
+            vars.push(name);
+        }
+        let elem = match (&want, tuple) { (LK::ArrNum, false) => LK::Num, (LK::ArrStr, false) => LK::Str, (LK::Mat, false) => LK::ArrNum, (LK::Mat, true) => LK::Num, _ => LK::Other };
+        for v in &vars { if v != "_" && !env.iter().any(|p| &p.0 == v) { env.push((v.clone(), elem.clone())); } }
+        its.push(LIt { vars, tuple, over });
+    }
+    (its, env)
+}
+fn gen_idx(r: &mut Rng, env: &[(String, LK)], low: bool) -> Vec<LE> {
+    let mut idx = vec![];
+    for _ in 0..1 + r.below(2) {
+        let e = match r.below(if low { 4 } else { 8 }) {
+            0 => LE::Var("free".into()),
+            1 | 2 => { let c: Vec<&(String, LK)> = env.iter().filter(|p| p.0.starts_with('i')).collect(); if c.is_empty() { LE::Lit(LV::I(1)) } else { LE::Var(r.pick(&c).0.clone()) } }
+            3 => if r.chance(1, 2) { gen_le(r, env, &LK::Str, 1).0 } else { gen_le(r, env, &LK::Num, 2).0 },
+            4 => { let w = r.pick(&[LK::Bool, LK::ArrNum, LK::Other]).clone(); gen_le(r, env, &w, 1).0 }
+            _ => gen_le(r, env, &LK::Num, 2).0,
+        };
+        idx.push(e);
+    }
+    idx
+}
+/// an integer-valued bound most of the time (IntegerRange wants an integer KIND)
+fn gen_int_bound(r: &mut Rng, env: &[(String, LK)], low: bool) -> LE {
+    match r.below(if low { 4 } else { 6 }) {
+        0 => LE::Lit(LV::I(r.range(-3, 9))),
+        1 => { let c: Vec<&(String, LK)> = env.iter().filter(|p| p.1 == LK::Num && p.0.starts_with('i')).collect(); if c.is_empty() { LE::Lit(LV::I(r.range(0, 9))) } else { LE::Var(r.pick(&c).0.clone()) } }
+        2 => LE::Bin(*r.pick(&["add", "sub", "mul"]), Box::new(LE::Lit(LV::I(r.range(0, 5)))), Box::new(LE::Lit(LV::I(r.range(0, 5))))),
+        3 => { let c: Vec<&(String, LK)> = env.iter().filter(|p| p.1 == LK::ArrNum).collect(); if c.is_empty() { LE::Lit(LV::I(2)) } else { LE::Call("len".into(), vec![LE::Var(r.pick(&c).0.clone())]) } }
+        4 => LE::Lit(LV::I(*r.pick(&[2147483647i64, 2147483648, -2147483648, -2147483649]))),
+        _ => gen_le(r, env, &LK::Num, 1).0,
+    }
+}
+fn lty_txt(t: &LTy) -> String {
+    let b = |o: &Option<(LE, LE)>| match o { Some((a, b)) => format!("({}, {})", le_txt(a), le_txt(b)), None => String::new() };
+    match t { LTy::Bool => "Boolean".into(), LTy::Real(o) => format!("Real{}", b(o)), LTy::NNReal(o) => format!("NonNegativeReal{}", b(o)), LTy::Int(a, c) => format!("IntegerRange({}, {})", le_txt(a), le_txt(c)) }
+}
+fn lty_sx(t: &LTy) -> String {
+    let b = |o: &Option<(LE, LE)>| match o { Some((a, b)) => format!("{} {}", le_sx(a), le_sx(b)), None => "none none".into() };
+    match t { LTy::Bool => "(bool)".into(), LTy::Real(o) => format!("(real {})", b(o)), LTy::NNReal(o) => format!("(nnreal {})", b(o)), LTy::Int(a, c) => format!("(int {} {})", le_sx(a), le_sx(c)) }
+}
+
+/// iteration scopes at program level: declarations and quantified, named constraints over the constants of a
+/// `where` section; the checker's verdict, the outcome of transform, the declared domain (names as index values,
+/// types with their bounds) and the index values of every generated constraint (read back from its name)
+/// against `Rooc/Pre/Scopes.lean`
+fn scopes_cases(r: &mut Rng, n: usize) -> Vec<Case> {
+    let mut out = vec![];
+    for k in 0..n {
+        // two thirds of the programs with few faults (so that most of them reach the leaves), one third as usual
+        FAULT_DEN.store(if k % 3 == 0 { 14 } else { 60 }, std::sync::atomic::Ordering::Relaxed);
+        let low = k % 3 != 0;
+        let (cenv, lets) = gen_lets(r, 3);
+        let mut fresh = 0usize;
+        let mut decls: Vec<LDecl> = vec![];
+        for dk in 0..r.below(3) {
+            let (its, env) = gen_its(r, &cenv, low, &mut fresh, 0);
+            let mut vars = vec![];
+            for vk in 0..1 + r.below(2) {
+                if r.chance(1, 4) {
+                    // (one clash with a constant per program at most: the checker compares the static types of equal plain names first)
+                    let name = if !low && dk == 0 && vk == 0 && r.chance(1, 4) && !cenv.is_empty() { cenv[r.below(cenv.len())].0.clone() } else { format!("d{}p{}", dk, vk) };
+                    vars.push((name, None));
+                } else { vars.push((format!("d{}x{}", dk, vk), Some(gen_idx(r, &env, low)))); }
+            }
+            let bounds = |r: &mut Rng| -> Option<(LE, LE)> { if r.chance(1, 3) { None } else { let a = gen_le(r, &env, &LK::Num, 1).0; let b = if r.chance(1, 2) { LE::Bin("add", Box::new(a.clone()), Box::new(LE::Lit(LV::I(r.range(0, 4))))) } else { gen_le(r, &env, &LK::Num, 1).0 }; Some((a, b)) } };
+            let ty = match r.below(6) {
+                0 => LTy::Bool,
+                1 | 2 => LTy::Real(bounds(r)),
+                3 => LTy::NNReal(bounds(r)),
+                _ => { let a = gen_int_bound(r, &env, low); let b = if r.chance(1, 2) { LE::Bin("add", Box::new(a.clone()), Box::new(LE::Lit(LV::I(r.range(0, 4))))) } else { gen_int_bound(r, &env, low) }; LTy::Int(a, b) }
+            };
+            decls.push(LDecl { its, vars, ty });
+        }
+        let nfor = if decls.is_empty() { 1 + r.below(2) } else { r.below(3) };
+        let mut fors: Vec<LFor> = vec![];
+        for _ in 0..nfor {
+            let (its, env) = gen_its(r, &cenv, low, &mut fresh, 1);
+            let idx = gen_idx(r, &env, low);
+            fors.push(LFor { its, idx });
+        }
+        out.push(scopes_case(&lets, &decls, &fors));
+    }
+    // the boundaries of the declared types, deterministically
+    let lit = |i: i64| LE::Lit(LV::I(i));
+    let num = |x: f64| LE::Lit(LV::F(x));
+    let one = |ty: LTy| vec![LDecl { its: vec![], vars: vec![("d0p0".to_string(), None)], ty }];
+    for ty in [
+        LTy::Int(lit(2147483647), lit(2147483647)), LTy::Int(lit(2147483647), lit(2147483648)), LTy::Int(lit(2147483648), lit(2147483648)),
+        LTy::Int(LE::Un("neg", Box::new(lit(2147483648))), lit(0)), LTy::Int(LE::Un("neg", Box::new(lit(2147483649))), lit(0)), LTy::Int(lit(0), LE::Un("neg", Box::new(lit(1)))), LTy::Int(lit(3), lit(3)),
+        LTy::Int(lit(9223372036854775807), lit(9223372036854775807)), LTy::Int(LE::Lit(LV::B(true)), lit(3)), LTy::Int(num(1.0), lit(3)),
+        LTy::NNReal(Some((LE::Un("neg", Box::new(num(0.5))), lit(1)))), LTy::NNReal(Some((lit(2), lit(1)))), LTy::NNReal(Some((lit(0), lit(0)))), LTy::NNReal(Some((LE::Lit(LV::B(true)), num(1.5)))),
+        LTy::Real(Some((lit(2), lit(1)))), LTy::Real(Some((lit(1), lit(1)))), LTy::Real(Some((LE::Var("MinusInfinity".into()), LE::Var("Infinity".into())))), LTy::Real(Some((LE::Var("Infinity".into()), LE::Var("MinusInfinity".into())))),
+        LTy::Real(Some((LE::Lit(LV::S("a".into())), lit(1)))), LTy::Real(None), LTy::NNReal(None), LTy::Bool,
+    ] {
+        let mut c = scopes_case(&[], &one(ty), &[]);
+        c.tags.push("scopes:declared-type-boundaries".into());
+        out.push(c);
+    }
+    out
+}
+
+fn scopes_case(lets: &[(String, LE)], decls: &[LDecl], fors: &[LFor]) -> Case {
+    // source text
+    let it_txt = |it: &LIt| format!("{} in {}", if it.tuple { format!("({})", it.vars.join(", ")) } else { it.vars[0].clone() }, le_txt(&it.over));
+    let idx_txt = |idx: &Vec<LE>| idx.iter().map(|e| format!("_{{{}}}", le_txt(e))).collect::<String>();
+    let cons: String = fors.iter().enumerate().map(|(k, f)| format!("    c{}{}: z >= 0 for {}\n", k, idx_txt(&f.idx), f.its.iter().map(it_txt).collect::<Vec<_>>().join(", "))).collect();
+    let dtxt: String = decls.iter().map(|d| format!("    {} as {}{}\n",
+        d.vars.iter().map(|(n, ix)| match ix { None => n.clone(), Some(ix) => format!("{}{}", n, idx_txt(ix)) }).collect::<Vec<_>>().join(", "), lty_txt(&d.ty),
+        if d.its.is_empty() { String::new() } else { format!(" for {}", d.its.iter().map(it_txt).collect::<Vec<_>>().join(", ")) })).collect();
+    let ltxt = lets.iter().map(|(n, e)| format!("    let {} = {}\n", n, le_txt(e))).collect::<String>();
+    let src = format!("min 1\ns.t.\n    z >= 0\n{}where\n{}define\n    z as Real\n{}", cons, ltxt, dtxt);
+    let res = catch_unwind(AssertUnwindSafe(|| {
+        let pre = RoocParser::new(src.clone()).parse().map_err(|e| e.to_string_from_source(&src))?;
+        let names: Vec<String> = pre.constants().iter().map(|c| c.name.value().clone()).collect();
+        let tc = match pre.create_type_checker(&vec![], &IndexMap::new()) { Ok(()) => "(ok)".to_string(), Err(e) => format!("(err {})", class_of_static(&e)) };
+        let tr = match pre.clone().transform(vec![], &IndexMap::new()) {
+            Ok(m) => {
+                let all: Vec<String> = m.constraints().iter().map(|c| c.name().to_string()).collect();
+                let per: Vec<String> = (0..fors.len()).map(|k| {
+                    let pre = format!("c{}_", k);
+                    format!("({})", all.iter().filter_map(|n| n.strip_prefix(&pre)).map(|rest| format!("({})", rest.split('_').map(frag_sx).collect::<Vec<_>>().join(" "))).collect::<Vec<_>>().join(" "))
+                }).collect();
+                let dom: Vec<String> = m.domain().iter().filter(|(n, _)| n.as_str() != "z").map(|(n, v)| {
+                    let mut parts = n.split('_');
+                    let base = parts.next().unwrap_or("");
+                    let ty = match v.get_type() {
+                        rooc::VariableType::Boolean => "(bool)".to_string(),
+                        rooc::VariableType::Real(a, b) => format!("(real {} {})", pre_reflect::numc(*a), pre_reflect::numc(*b)),
+                        rooc::VariableType::NonNegativeReal(a, b) => format!("(nnreal {} {})", pre_reflect::numc(*a), pre_reflect::numc(*b)),
+                        rooc::VariableType::IntegerRange(a, b) => format!("(int {} {})", a, b),
+                    };
+                    format!("({} ({}) {})", sx::q(base), parts.map(frag_sx).collect::<Vec<_>>().join(" "), ty)
+                }).collect();
+                format!("(ok (domain{}) (names{}))", dom.iter().map(|d| format!(" {}", d)).collect::<String>(), per.iter().map(|d| format!(" {}", d)).collect::<String>())
+            }
+            Err(e) => format!("(err {})", class_of(&e)),
+        };
+        Ok::<_, String>((names, tc, tr))
+    }));
+    let mut c = Case::default();
+    c.tags = vec!["stream:scopes".into()];
+    let (names, tc, tr) = match res {
+        Ok(Ok(x)) => x,
+        Ok(Err(e)) => { c.tags.push("scopes-parse-error".into()); c.show = format!("{}\n{}", src, e); return c; }
+        Err(_) => (lets.iter().map(|l| l.0.clone()).collect(), "(panic)".into(), "(panic)".into()),
+    };
+    let it_sx = |it: &LIt| format!("(it ({}) {} {})", it.vars.iter().map(|v| sx::q(v)).collect::<Vec<_>>().join(" "), if it.tuple { "tuple" } else { "single" }, le_sx(&it.over));
+    let its_sx = |its: &Vec<LIt>| its.iter().map(|i| format!(" {}", it_sx(i))).collect::<String>();
+    c.req = format!("scopes (lets{}) (decls{}) (fors{})",
+        lets.iter().zip(names.iter()).map(|((_, e), n)| format!(" (let {} {})", sx::q(n), le_sx(e))).collect::<String>(),
+        decls.iter().map(|d| format!(" (decl (its{}) (vars{}) {})", its_sx(&d.its),
+            d.vars.iter().map(|(n, ix)| match ix { None => format!(" (v {})", sx::q(n)), Some(ix) => format!(" (cv {}{})", sx::q(n), ix.iter().map(|e| format!(" {}", le_sx(e))).collect::<String>()) }).collect::<String>(), lty_sx(&d.ty))).collect::<String>(),
+        fors.iter().map(|f| format!(" (for (its{}) (idx{}))", its_sx(&f.its), f.idx.iter().map(|e| format!(" {}", le_sx(e))).collect::<String>())).collect::<String>());
+    c.imp = format!("(check {} eval {})", tc, tr);
+    c.show = format!("{}=> {}", src, c.imp);
+    let trv = if tr.starts_with("(ok") { "ok".to_string() } else { tr.trim_start_matches("(err ").trim_end_matches(')').to_string() };
+    c.tags.push(format!("scopes-typecheck-verdict:{}", tc));
+    c.tags.push(format!("scopes-transform:{}", trv));
+    c.tags.push(format!("scopes-decls:{}", decls.len()));
+    c.tags.push(format!("scopes-fors:{}", fors.len()));
+    for d in decls { c.tags.push(format!("scopes-decl-type:{}", match d.ty { LTy::Bool => "Boolean", LTy::Real(None) => "Real", LTy::Real(_) => "Real(bounds)", LTy::NNReal(None) => "NonNegativeReal", LTy::NNReal(_) => "NonNegativeReal(bounds)", LTy::Int(..) => "IntegerRange" })); if d.vars.iter().any(|v| v.1.is_none()) { c.tags.push("scopes-feature:plain-declared-name".into()); } if !d.its.is_empty() { c.tags.push("scopes-feature:quantified-declaration".into()); } }
+    let all_its = || fors.iter().flat_map(|f| f.its.iter()).chain(decls.iter().flat_map(|d| d.its.iter()));
+    if all_its().any(|i| i.tuple) { c.tags.push("scopes-feature:tuple-pattern".into()); }
+    if all_its().any(|i| i.vars.iter().any(|v| v == "_")) { c.tags.push("scopes-feature:underscore".into()); }
+    if fors.iter().any(|f| f.idx.iter().any(|e| matches!(e, LE::Var(v) if v == "free"))) { c.tags.push("scopes-feature:literal-fragment".into()); }
+    if tr.starts_with("(ok") { let leaves = tr.matches("((").count() + tr.matches(") (").count(); c.tags.push(format!("scopes-leaves:{}", if leaves == 0 { "0" } else if leaves < 4 { "1-3" } else { "4+" })); }
+    c.nontrivial = tc == "(ok)";
+    if tc == "(ok)" && TYPE_CLASS.contains(&trv.as_str()) {
+        let v = run_program(&src);
+        let any = src.contains("[]") || src.contains("[1, \"a\"]") || src.contains("[[1], [\"a\"]]");
+        c.sig = Some(if v.applicable == Some(true) { format!("{}:operator-applicable", trv) } else if any { format!("{}:any-typed-value", trv) } else { format!("{}:scopes", trv) });
+        c.oracle = format!("sound ok {} {}", trv, match v.applicable { Some(true) => "applicable", Some(false) => "inapplicable", None => "na" });
+        c.impl_violation = Some(format!("declarations / quantified constraints are accepted by the type checker and fail at transform with {}", trv));
+    }
+    if c.oracle.is_empty() { c.oracle = format!("sound {} {} na", if tc == "(ok)" { "ok" } else { "err" }, trv); }
+    c
+}
+
 fn lets_cases(r: &mut Rng, n: usize) -> Vec<Case> {
     let mut out = vec![];
     for _ in 0..n {
-        let mut env: Vec<(String, LK)> = if r.chance(1, 4) { vec![("PI".to_string(), LK::Num), ("Infinity".to_string(), LK::Num), ("MinusInfinity".to_string(), LK::Num)] } else { vec![] };
-        let mut lets: Vec<(String, LE)> = vec![];
-        for k in 0..2 + r.below(5) {
-            let want = r.pick(&[LK::Num, LK::Num, LK::Num, LK::Bool, LK::Str, LK::ArrNum, LK::ArrNum, LK::Mat, LK::ArrStr, LK::Other]).clone();
-            let (e, kind) = gen_le(r, &env, &want, 2);
-            let name = if r.chance(1, 20) && !env.is_empty() { env[0].0.clone() } else if r.chance(1, 25) { "_".to_string() } else { format!("q{}", k) };
-            if name != "_" && !env.iter().any(|p| p.0 == name) { env.push((name.clone(), kind)); }
-            lets.push((name, e));
-        }
+        let (_, lets) = gen_lets(r, 5);
         out.push(lets_case(&lets));
     }
     // regression (67931d1): `let _ = e` discards, whatever names occur inside e
@@ -467,7 +692,7 @@ fn lets_case(lets: &[(String, LE)]) -> Case {
         let pre = RoocParser::new(src.clone()).parse().map_err(|e| e.to_string_from_source(&src))?;
         // the names the parser gave the constants
         let names: Vec<(String, u64)> = pre.constants().iter().map(|c| (c.name.value().clone(), c.name.span().start as u64)).collect();
-        let tc = match pre.create_type_checker(&vec![], &IndexMap::new()) { Ok(()) => "(ok)".to_string(), Err(e) => format!("(err {})", class_of(&e)) };
+        let tc = match pre.create_type_checker(&vec![], &IndexMap::new()) { Ok(()) => "(ok)".to_string(), Err(e) => format!("(err {})", class_of_static(&e)) };
         let map = pre.create_token_type_map(&vec![], &IndexMap::new());
         let mut kinds: Vec<(u64, String, String)> = vec![];
         for (_, tok) in map.iter() {
@@ -691,6 +916,8 @@ pub fn generate(seed: u64, n: usize, thorough: bool, corpus: Option<&str>) -> Ve
     for mut c in pre_reflect::static_cases() { c.tags.push("stream:operator-tables".into()); cases.push(c); }
     cases.extend(builtin_cases(thorough));
     cases.extend(lets_cases(&mut r, if thorough { 8000 } else { 1500 }));
+    cases.extend(scopes_cases(&mut r, if thorough { 8000 } else { 1200 }));
+    FAULT_DEN.store(14, std::sync::atomic::Ordering::Relaxed);
     cases.extend(destructure_cases());
     cases.extend(compound_cases());
     cases.extend(expr_cases(&mut r, if thorough { 20000 } else { 2000 }));
